@@ -1536,6 +1536,8 @@ output_3byte_vex_opcode (OrcCompiler *p, const OrcX86Insn *xinsn)
   // Handle flags
   switch (xinsn->opcode->prefix) {
     case ORC_VEX_SIMD_PREFIX_F2:
+      byte3 |= 0x3;
+      break;
     case ORC_VEX_SIMD_PREFIX_F3:
       byte3 |= 0x2; 
       break;
